@@ -35,6 +35,8 @@ class _Rec:
     orig = {}
     base = None      # scratch directory of the running case: the only place where modifying calls are let through
     blocked = []     # modifying calls refused by the safety net
+    failwrite = False   # "disk full": the spool file handed out by io.open(dir, "w+b") raises ENOSPC on write
+    tmpnames = set()    # every temporary file name tempfile announced (to recognise left-overs)
 REC = _Rec()
 _WRAPPED = ["stat", "lstat", "listdir", "scandir", "open", "rename", "replace", "unlink", "remove", "mkdir", "rmdir", "chmod",
             "truncate", "link", "symlink", "readlink", "access", "utime", "chdir", "mkfifo", "mknod", "chown"]
@@ -72,6 +74,17 @@ def _from_tracer():
         f = f.f_back; n += 1
     return False
 
+class _FullDisk:
+    """a file object whose write fails like on a full disk (everything else is the real file)"""
+    def __init__(self, f): self.__dict__["_f"] = f
+    def __getattr__(self, n): return getattr(self._f, n)
+    def write(self, b):
+        if len(b): raise OSError(28, "No space left on device")
+        return 0
+    def __enter__(self): self._f.__enter__(); return self
+    def __exit__(self, *a): return self._f.__exit__(*a)
+    def __iter__(self): return iter(self._f)
+
 def _install():
     if REC.installed: return
     REC.installed = True
@@ -102,7 +115,8 @@ def _install():
                     REC.on = False
                     try: _guard("io.open", [p])
                     finally: REC.on = True
-        return orig_open(file, mode, *a, **k)
+        f = orig_open(file, mode, *a, **k)
+        return _FullDisk(f) if (REC.on and REC.failwrite and mode == "w+b") else f
     io.open = open_w; builtins.open = open_w
     def hook(ev, args):
         if not REC.on: return
@@ -111,15 +125,20 @@ def _install():
             cand = args[:1] if ev in ("open", "os.listdir", "os.scandir", "os.remove", "os.rmdir", "os.mkdir", "os.chmod", "os.chown", "os.truncate", "os.utime", "tempfile.mkstemp", "tempfile.mkdtemp") else args
             paths = [p for p in (_p(a) for a in cand if isinstance(a, (str, bytes, os.PathLike))) if p is not None]
             if paths: REC.audit.append((ev, paths))
+            if ev == "tempfile.mkstemp" and paths: REC.tmpnames.add(paths[0])
     sys.addaudithook(hook)
 
 def snapshot(base):
     """relative path -> ('d',) | ('f', size, cksum, inode, mtime_ns), taken with recording off"""
     out = {}
     for d, dirs, files in os.walk(base):
-        for n in dirs: out[os.path.relpath(os.path.join(d, n), base)] = ("d",)
+        for n in dirs:
+            p = os.path.join(d, n)
+            out[os.path.relpath(p, base)] = ("l", os.readlink(p)) if os.path.islink(p) else ("d",)
         for n in files:
-            p = os.path.join(d, n); st = os.stat(p)
+            p = os.path.join(d, n)
+            if os.path.islink(p): out[os.path.relpath(p, base)] = ("l", os.readlink(p)); continue
+            st = os.stat(p)
             with open(p, "rb") as f: b = f.read()
             out[os.path.relpath(p, base)] = ("f", len(b), cksum(b), st.st_ino, st.st_mtime_ns)
     return out
@@ -144,6 +163,9 @@ class World:
             else:
                 os.makedirs(os.path.dirname(p), exist_ok=True)
                 with open(p, "wb") as f: f.write(content(e["size"], e["seed"]))
+        if inp.get("symlinks"):      # oracle-only worlds: a file symlink and a directory symlink pointing at the sentinels
+            os.symlink("../outside/secret", os.path.join(self.root, "lnk")); os.symlink("../outside", os.path.join(self.root, "dlnk"))
+        self.lexical = bool(inp.get("symlinks"))
         self.loop = simloop.VLoop()
         # a relative root (the CLI default is "."): the process's working directory becomes the root itself (".") or its parent
         self.rootspec = inp.get("rootspec"); self.prevcwd = None
@@ -153,6 +175,9 @@ class World:
         self.ctx, self.tman, self.mman, self.mi = simnet.make_stack(self.loop, self.srv)
         self.peer = simnet.Addr("peer"); self.simnet = simnet
         self.n = 0
+        if inp.get("refresher"):      # FileServerProgram starts this task next to the context
+            with self.loop.enter(): self.reftask = self.loop.create_task(self.srv.check_files_for_refreshes())
+            self.loop.drain()
     def close(self):
         if self.prevcwd is not None: os.chdir(self.prevcwd)
         shutil.rmtree(self.base, ignore_errors=True)
@@ -199,12 +224,20 @@ class World:
         raw = bytearray(m.encode())
         if not 1 <= it["m"] <= 7: raw[1] = it["m"]
         return bytes(raw), self.n.to_bytes(2, "big")
-    def exchange(self, raw, token):
-        """inject with recording on; -> (response Message or None, wrapper events, audit events)"""
+    def tick(self):
+        """10 seconds pass: one round of check_files_for_refreshes (and whatever notifications it triggers)"""
         REC.events = []; REC.audit = []; REC.base = self.base
         REC.on = True
-        try: self.simnet.inject(self.loop, self.mman, raw, self.peer)
+        try: self.loop.advance(10 * 1000000)
         finally: REC.on = False
+        self.mi.take()
+        return REC.events, REC.audit
+    def exchange(self, raw, token, failwrite=False):
+        """inject with recording on; -> (response Message or None, wrapper events, audit events)"""
+        REC.events = []; REC.audit = []; REC.base = self.base
+        REC.on = True; REC.failwrite = failwrite
+        try: self.simnet.inject(self.loop, self.mman, raw, self.peer)
+        finally: REC.on = False; REC.failwrite = False
         resp = None
         for _, _, b in self.mi.take():
             r = self.aiocoap.Message.decode(b, self.peer)
@@ -213,15 +246,18 @@ class World:
     # -------------------------------------------------------------------------------- canonical forms
     def cpath(self, p, tmp):
         if tmp and (p == tmp or p.startswith(tmp + "/")): p = os.path.dirname(tmp) + "/" + TMPNAME + p[len(tmp):]
+        elif os.path.basename(p) in self.tmpbase(): p = os.path.join(os.path.dirname(p), TMPNAME)      # a temporary file left behind by an earlier request
         if not p.startswith("/"): p = os.path.join(os.getcwd(), p)        # relative paths (relative root) are seen from the case's working directory
         parts = [x for x in p.split("/") if x and x != "."]
         for tag, pre in (("in", self.root), ("base", self.base)):
             pp = [x for x in pre.split("/") if x]
             if parts[:len(pp)] == pp: return [tag] + canon_parts(parts[len(pp):], [x for x in self.base.split("/") if x])
         return ["abs"] + parts
+    def tmpbase(self):
+        return {os.path.basename(t) for t in REC.tmpnames if t.startswith(self.base + "/")}
     def outside(self, p):
         if not p.startswith("/"): p = os.path.join(os.getcwd(), p)
-        try: rp = os.path.realpath(p)
+        try: rp = os.path.normpath(p) if self.lexical else os.path.realpath(p)
         except (ValueError, OSError): rp = os.path.normpath(p)
         return not (rp == self.root or rp.startswith(self.root + "/"))
     def canon(self, events, audit):
@@ -315,7 +351,10 @@ class C19(fw.Property):
                     "hand-written Model/C19.v (validated by the history stream: effect traces, responses, final trees)",
                     "harness: os/io wrappers + sys.addaudithook as the observation of 'touched paths'; CPython 3.12 pathlib/posixpath/tempfile; ext4 semantics of the scratch tree",
                     "virtual-time loop and fake transport (harness/simloop.py, simnet.py)"]
-    assumptions = ["no symbolic links below the root", "the root is an absolute path or a relative path (root_ok); the one-name-space file-system model and the absolutised temp name assume a relative root's parts contain no '..'", "single-threaded server, no concurrent modification of the tree",
+    assumptions = ["no symbolic links below the root (the server cannot create one — oracle rule C19:symlink-created; with links planted by somebody else confinement is lexical only, wild stream)",
+                   "mimetypes.guess_type's one-time, request-independent read of the system's mime.types files is exempt (done in setup before recording starts)",
+                   "C19_error_has_no_effect assumes that writing the request body into the temporary file does not fail (fs_disk_full = false); the failing case is the open finding tempfile-left-after-failed-write",
+                   "an error response may still have registered the path in _observations (Observe:0 on a directory / missing file): no file-system effect, only st_obs changes", "the root is an absolute path or a relative path (root_ok); the one-name-space file-system model and the absolutised temp name assume a relative root's parts contain no '..'", "single-threaded server, no concurrent modification of the tree",
                    "temporary file names are fresh (tempfile retries on collision)"]
 
     def __init__(self):
@@ -342,7 +381,8 @@ class C19(fw.Property):
             r = k % 10
             if r == 0: yield "pathmodel", self.gen_pathmodel(rng)
             elif r == 1: yield "localpath", self.gen_localpath(rng)
-            elif r in (2, 3): yield "wild", self.gen_history(rng, wild=True)
+            elif r == 2 or (r == 3 and k % 20 == 3): yield "wild", self.gen_history(rng, wild=True)
+            elif r == 3: yield "refresh", self.gen_refresh(rng)
             else: yield "history", self.gen_history(rng, wild=False)
 
     SEGS = ["", ".", "..", "a", "b", "a/b", "/", "//", "///", "/a", "//a", "///a", "a/", "a//", "a//b", "./a", "a/.", "a/./b", "a/../b", "../a", "/..", "/.", "/etc/passwd",
@@ -452,12 +492,39 @@ class C19(fw.Property):
                 if rng.random() < 0.15: it["query"] = [rng.choice(["a=b", "../..", "path=/etc/passwd", ""])]
                 if rng.random() < 0.1: it["host"] = rng.choice(["example.com", "..", "/"])
             inp["items"].append(it)
+        if wild and rng.random() < 0.2:
+            inp["symlinks"] = True
+            for _ in range(rng.randint(1, 3)):
+                inp["items"].insert(rng.randint(0, len(inp["items"])), {"m": rng.choice([1, 1, 3, 4]), "path": rng.choice([["lnk"], ["dlnk", ""], ["dlnk", "secret"], ["dlnk", "new"], ["lnk", ""]]), "payload": [4, 2]})
         if b1 and not any("block1" in it for it in inp["items"]):
             seq = self.gen_block1(rng, tree); k = rng.randint(0, len(inp["items"]))
             if rng.random() < 0.5: inp["items"] = inp["items"][:k] + seq + inp["items"][k:]                      # en bloc
             else:                                                                                                # interleaved with the other requests
                 for it in seq:
                     k = rng.randint(k, len(inp["items"])); inp["items"].insert(k, it); k += 1
+        # the disk is full while the LAST PUT of the history is served (the model has one fixed temporary name: a PUT into the same
+        # directory after a left-over temporary file would collide there, whereas tempfile picks another name)
+        last = [it for it in inp["items"] if it["m"] == 3][-1:]
+        if last and inp["write"] and rng.random() < 0.5 and last[0].get("payload") and last[0]["payload"][0] > 0 and "block1" not in last[0]:
+            last[0]["full"] = True
+        return inp
+    def gen_refresh(self, rng):
+        """oracle-only: observations are registered (Observe:0 on files, directories, missing and hostile paths), files are replaced /
+        deleted, and the 10-second refresher check_files_for_refreshes runs (ticks)"""
+        tree = self.gen_tree(rng); files = [e["p"] for e in tree if not e.get("d")]; dirs = [e["p"] for e in tree if e.get("d")]
+        inp = {"write": rng.random() < 0.8, "etag_length": 8, "tree": tree, "refresher": True, "items": []}
+        if rng.random() < 0.4: inp["rootspec"] = rng.choice([".", "root", "./root/"])
+        for _ in range(rng.randint(3, 9)):
+            x = rng.random()
+            if x < 0.35:
+                path = rng.choice([list(rng.choice(files)), list(rng.choice(files)), list(rng.choice(dirs)) + [""], ["nope"], ["", ""] + list(rng.choice(files)),
+                                   ["..", "outside", "secret"], ["", {"sym": "OUT"}, "secret"], [{"abs": "OUT", "tail": "/secret"}], ["a\0b"]])
+                inp["items"].append({"m": rng.choice([1, 1, 1, 3, 4]), "path": path, "obs": 0, **({"payload": [5, 1]} if rng.random() < 0.3 else {})})
+            elif x < 0.6: inp["items"].append({"tick": True, "m": 0, "path": []})
+            elif x < 0.8: inp["items"].append({"m": 3, "path": list(rng.choice(files)), "payload": [rng.choice([0, 7, 40]), rng.randint(0, 9)]})
+            elif x < 0.9: inp["items"].append({"m": 4, "path": list(rng.choice(files))})
+            else: inp["items"].append({"m": 1, "path": list(rng.choice(files))})
+        inp["items"].append({"tick": True, "m": 0, "path": []})
         return inp
     def gen_block1(self, rng, tree):
         """a Block1 sequence towards one target: complete, or with a gap / a short middle block / a restart / a repeated last
@@ -512,6 +579,13 @@ class C19(fw.Property):
         out = []; side = []; pls = []; after = []
         for it in inp["items"]:
             self.payloads = []
+            if it.get("tick"):
+                before = snapshot(w.base); events, audit = w.tick(); eff, esc = w.canon(events, audit); aft = snapshot(w.base)
+                inroot = lambda d: {k: v for k, v in d.items() if k == "root" or k.startswith("root/")}
+                out.append([{"code": 0, "eff": eff, "body": None, "etag": False, "chg": inroot(before) != inroot(aft),
+                             "out": {k: v for k, v in before.items() if k not in inroot(before)} != {k: v for k, v in aft.items() if k not in inroot(aft)},
+                             "esc": esc, "leak": False, "sym": False}])
+                side.append(None); pls.append([]); after.append(None); continue
             comps = w.expand(it["path"])
             group = []
             t = w.target(comps)
@@ -534,7 +608,9 @@ class C19(fw.Property):
             if t is not None and os.path.isfile(t):
                 with open(t, "rb") as f: after[-1] = f.read()
         self.side[fw.jdump(inp)] = (side, pls, after)
-        final = sorted([["base"] + k.split("/"), v[0] == "d"] + ([0, 0] if v[0] == "d" else [v[1], v[2]]) for k, v in snapshot(w.base).items())
+        def fkey(k):        # a temporary file that was left behind is named like the model's
+            return ["base"] + (os.path.dirname(k).split("/") if os.path.dirname(k) else []) + [TMPNAME] if os.path.join(w.base, k) in REC.tmpnames else ["base"] + k.split("/")
+        final = sorted([fkey(k), v[0] == "d"] + ([0, 0] if v[0] == "d" else ([-1, 0] if v[0] == "l" else [v[1], v[2]])) for k, v in snapshot(w.base).items())
         exc = [str(c.get("exception") or c.get("message"))[:120] for c in w.loop.exceptions]
         res = {"trace": out, "final": final}
         if exc: res["loop_exceptions"] = exc
@@ -543,7 +619,7 @@ class C19(fw.Property):
     def one(self, w, it, comps, block2):
         before = snapshot(w.base)
         raw, token = w.build(it, comps, block2)
-        resp, events, audit = w.exchange(raw, token)
+        resp, events, audit = w.exchange(raw, token, failwrite=bool(it.get("full")))
         eff, esc = w.canon(events, audit)
         payload = resp.payload if resp is not None else b""
         blk = resp.opt.block2 if resp is not None else None
@@ -563,13 +639,17 @@ class C19(fw.Property):
         body = None
         if code == 69 and it["m"] == 1:
             if comps == WKC: body = "wkc" if payload == b'</>;ct=40;rt="tag:chrysn@fsfe.org,2022:fileserver"' else {"wkc?": payload.hex()}
-            elif not comps or comps[-1] == "": body = {"dir": frags(payload.decode("utf8", "replace"))}
+            elif not comps or comps[-1] == "":
+                listing = payload.decode("utf8", "replace")
+                for t in w.tmpbase(): listing = listing.replace(t, TMPNAME)
+                body = {"dir": frags(listing)}
             else: body = {"len": len(payload), "ck": cksum(payload), "blk": [blk.block_number, bool(blk.more), blk.size_exponent] if blk is not None else None}
         chg_in = {k: v for k, v in before.items() if k == "root" or k.startswith("root/")} != {k: v for k, v in after.items() if k == "root" or k.startswith("root/")}
         chg_out = {k: v for k, v in before.items() if not (k == "root" or k.startswith("root/"))} != {k: v for k, v in after.items() if not (k == "root" or k.startswith("root/"))}
         self.payloads.append(payload)
         return {"code": code, "eff": eff, "body": body, "etag": resp is not None and resp.opt.etag is not None,
-                "chg": chg_in, "out": chg_out, "esc": esc, "leak": SECRET in payload}
+                "chg": chg_in, "out": chg_out, "esc": esc, "leak": SECRET in payload,
+                "sym": sum(1 for v in after.values() if v[0] == "l") != sum(1 for v in before.values() if v[0] == "l")}
 
     # ---------------------------------------------------------------- model
     def g_request(self, it, comps, w=None):
@@ -599,13 +679,13 @@ class C19(fw.Property):
         if stream == "localpath":
             comps = self.expand_plain(inp["path"])
             if any(0xD800 <= ord(ch) <= 0xDFFF for c in comps for ch in c) and False: return None
-            srv = "{| fs_root := [%s]; fs_write := false; fs_etag_enabled := true; fs_tmpname := %s; fs_cwd := [] |}" % (gs(inp["root"]), gs(TMPNAME))
+            srv = "{| fs_root := [%s]; fs_write := false; fs_etag_enabled := true; fs_tmpname := %s; fs_cwd := []; fs_disk_full := false |}" % (gs(inp["root"]), gs(TMPNAME))
             req = self.g_request({"m": 1}, comps)
             return "match request_to_localpath %s %s with Ok p => Some (anchor (load_parts p), parts (load_parts p)) | Raise _ => None end" % (srv, req)
         if stream != "history": return None
         base = self.MODEL_BASE; bparts = [x for x in base.split("/") if x]
         rootspec = inp.get("rootspec"); cwd = self.model_cwd(inp)
-        srv = "{| fs_root := [%s]; fs_write := %s; fs_etag_enabled := %s; fs_tmpname := %s; fs_cwd := %s |}" % (
+        srv = "{| fs_root := [%s]; fs_write := %s; fs_etag_enabled := %s; fs_tmpname := %s; fs_cwd := %s; fs_disk_full := false |}" % (
             gs(rootspec or base + "/root"), gbool(inp.get("write")), gbool(inp.get("etag_length", 8) != 0), gs(TMPNAME), gsl(cwd))
         ents = []       # (absolute parts, node)
         for i in range(1, len(bparts) + 1): ents.append((bparts[:i], "NDir"))
@@ -625,7 +705,7 @@ class C19(fw.Property):
         items = []
         for it in inp["items"]:
             req = self.g_request(it, self.model_expand(it["path"]))
-            items.append("IAll %s %d" % (req, it["all"]) if it.get("all") is not None else "IOne %s" % req)
+            items.append("IAll %s %d" % (req, it["all"]) if it.get("all") is not None else ("IOneFull %s" if it.get("full") else "IOne %s") % req)
         return "disp_run %s {| st_fs := %s; st_obs := []; st_spool := [] |} %s" % (srv, glist(["(%s, %s)" % (gsl(k), n) for k, n in ents]), glist(items))
     def model_cwd(self, inp):
         bparts = [x for x in self.MODEL_BASE.split("/") if x]
@@ -666,7 +746,7 @@ class C19(fw.Property):
                     elif body.name == "DBDir":
                         ents = body.args[0]
                         b = {"dir": frags(",".join(("</%s/>;ct=40" if isd else "</%s>") % "/".join(pstr(x) for x in rel) for rel, isd in ents))}
-                g.append({"code": code, "eff": eff, "body": b, "etag": etag, "chg": code in (68, 66), "out": False, "esc": [], "leak": False})
+                g.append({"code": code, "eff": eff, "body": b, "etag": etag, "chg": code in (68, 66), "out": False, "esc": [], "leak": False, "sym": False})
             trace.append(g)
         final = []
         for k, isd, ln, ck in fsd:
@@ -676,6 +756,10 @@ class C19(fw.Property):
         if inp.get("rootspec") == ".":      # what lies above the working directory is not in the model's name space (and cannot be named without "..")
             final += [[["base", "root"], True, 0, 0], [["base", "outside"], True, 0, 0], [["base", "outside", "secret"], False, len(SECRET), cksum(SECRET)],
                       [["base", "root2"], True, 0, 0], [["base", "root2", "x"], False, len(SECRET), cksum(SECRET)]]
+        # the one request served on a full disk: the model's final tree tells whether the temporary file was left behind
+        left = any(k[0][-1] == TMPNAME for k in final)
+        for it, g in zip(inp["items"], trace):
+            if it.get("full") and g[0]["code"] == 160 and left and g[0]["eff"] and g[0]["eff"][-1][0] == "Create": g[0]["chg"] = True
         return {"trace": trace, "final": sorted(final)}
 
     # ---------------------------------------------------------------- oracle: the property on the implementation's behaviour
@@ -691,13 +775,28 @@ class C19(fw.Property):
             if res["anchor"] != (1 if inp["root"].startswith("/") else 0) or res["parts"][:len(rootparts)] != rootparts or ".." in res["parts"][len(rootparts):]:
                 return ("C19:localpath-escape", "request_to_localpath(%r) under root %s gives %s%s" % (inp["path"], inp["root"], "/" * res["anchor"], "/".join(res["parts"])))
             return None
-        if res.get("loop_exceptions"): return ("C19:loop-exception", "exception reached the event loop: %s" % res["loop_exceptions"][0])
+        if res.get("loop_exceptions") and not inp.get("refresher"): return ("C19:loop-exception", "exception reached the event loop: %s" % res["loop_exceptions"][0])
         side, pls, after = self.side.get(fw.jdump(inp), (None, None, None))
         spool = {}      # the oracle's own reading of RFC 7959 Block1: key -> body so far
         for i, (it, group) in enumerate(zip(inp["items"], res["trace"])):
+            if it.get("tick"):
+                r = group[0]
+                if r["esc"]: return ("C19:escape:refresher:" + r["esc"][0].split(":")[0], "refresher round %d touched a path outside the root: %s" % (i, "; ".join(r["esc"][:4])))
+                # a round re-renders the requests whose observation fired — also an observed PUT/DELETE (Observe:0 is not restricted to GET),
+                # so with write permission the tree below the root may change; never outside, never without write permission
+                if r["out"]: return ("C19:refresher-modified-outside", "refresher round %d modified the file system outside the root" % i)
+                mut = [e for e in r["eff"] if e[0] in MUTATING]
+                if not inp.get("write") and (r["chg"] or mut): return ("C19:refresher-modified-without-write", "refresher round %d modified the tree / issued %s without write permission" % (i, mut[:1]))
+                continue
             comps = self.model_expand(it["path"])
             what = "request %d (method %d, Uri-Path %r)" % (i, it["m"], it["path"])
+            via_dlnk = bool(inp.get("symlinks")) and any(c == "dlnk" for c in comps)      # assumption "no symlinks below the root" knowingly broken
+            via_lnk = bool(inp.get("symlinks")) and any(c == "lnk" for c in comps)
             for r in group:
+                if r.get("sym") and not (via_lnk and r["code"] in (66, 68)):      # the server has no way to create one: keeps the no-symlink assumption self-maintaining
+                    return ("C19:symlink-created", "%s created or removed a symbolic link" % what)
+                if via_dlnk: continue
+                if via_lnk and r["leak"]: continue          # reading through a symlink that somebody else put below the root
                 if r["esc"]: return ("C19:escape:" + r["esc"][0].split(":")[0], "%s touched a path outside the root: %s" % (what, "; ".join(r["esc"][:4])))
                 if r["out"]: return ("C19:outside-modified", "%s changed the file system outside the root" % what)
                 if r["leak"]: return ("C19:outside-content-leaked", "%s was answered with the content of a file outside the root" % what)
@@ -705,6 +804,8 @@ class C19(fw.Property):
                     if r["chg"]: return ("C19:modified-without-write", "%s modified the tree although the server has no write permission (code %s)" % (what, r["code"]))
                     mut = [e for e in r["eff"] if e[0] in MUTATING]
                     if mut: return ("C19:mutation-attempt-without-write", "%s issued %s although the server has no write permission" % (what, mut[0]))
+                if r["code"] >= 128 and r["chg"] and it.get("full"):
+                    return ("C19:error-with-effect:tempfile-left-after-failed-write", "%s: writing the body failed (ENOSPC), the answer was %d.%02d and the temporary file was left behind" % (what, r["code"] >> 5, r["code"] & 31))
                 if r["code"] >= 128 and r["chg"]: return ("C19:error-with-effect", "%s was answered %d.%02d but changed the tree" % (what, r["code"] >> 5, r["code"] & 31))
                 if r["code"] == -1: return ("C19:no-response", "%s got no response" % what)
                 if lex_escapes(comps) and r["code"] < 128 and r["code"] != 95 and comps != WKC:      # 2.31 Continue only acknowledges a Block1 block
